@@ -46,7 +46,14 @@ PERSIST = {}          # key -> {"x": element, "y": element}; re-created at the s
 
 
 def fresh_persistent_objects():
-    for key, (cls, deg, va, vb) in PERSIST_SPEC.items():
+    from ..model import bls as _MB
+    buf = PERSIST.setdefault("BUF", {})
+    buf["key"] = bytearray(b"persistent-key-0123456789abcdef!")
+    buf["sigs"] = [_MB.sign("basic", 3, b"message"), _MB.sign("basic", 5, b"message"), _MB.sign("basic", 7, b"x")]
+    for key, spec in PERSIST_SPEC.items():
+        if spec is None:
+            continue
+        cls, deg, va, vb = spec
         d = PERSIST.setdefault(key, {})
         d["x"] = cls(va[0]) if deg == 1 else cls(list(va))
         d["y"] = cls(vb[0]) if deg == 1 else cls(list(vb))
@@ -250,6 +257,14 @@ def build_pool(seed, quick):
         return f, [n, salt]
     add("bls", "soak:KeyValidate x1100 distinct keys", 0.6, lambda: soak(1100, 7))
     add("hash", "soak:xmd x300 distinct messages", 0.5, lambda: ((lambda n: hashlib.sha256(b"".join(hm.expand_message_xmd(i.to_bytes(4, "big"), b"dst", 48, HASHES["sha256"]) for i in range(n))).hexdigest()), [300]))
+    # ---- persistent MUTABLE buffers: the same bytearray / list object is passed by several operations of a history and changed
+    #      in place in between ("bump" operations); results must follow the current contents
+    PERSIST_SPEC["BUF"] = None
+    add("persist", "buf.bump", 2, lambda: ((lambda P: (P["key"].__setitem__(0, (P["key"][0] + 1) % 256), P["sigs"].reverse(), bytes(P["key"]))[-1]), [PERSIST["BUF"]]))
+    add("persist", "buf.hkdf_extract(key buffer)", 2, lambda: ((lambda P, k: hm.hkdf_extract(P["key"], b"ikm")), [PERSIST["BUF"], bytes(PERSIST["BUF"]["key"])]))
+    add("persist", "buf.hkdf_expand(key buffer)", 2, lambda: ((lambda P, k: hm.hkdf_expand(P["key"], b"info", 40)), [PERSIST["BUF"], bytes(PERSIST["BUF"]["key"])]))
+    add("persist", "buf.xmd(msg buffer)", 1, lambda: ((lambda P, k: hm.expand_message_xmd(bytes(P["key"]), b"dst", 40, HASHES["sha256"])), [PERSIST["BUF"], bytes(PERSIST["BUF"]["key"])]))
+    add("persist", "buf.Aggregate(list)", 1, lambda: ((lambda P, k: cs.G2Basic.Aggregate(P["sigs"])), [PERSIST["BUF"], tuple(PERSIST["BUF"]["sigs"])]))
     # ---- operations that are refused half-way (an exception must not leave anything behind)
     add("raising", "xmd(ell>255)", 1, lambda: (hm.expand_message_xmd, [b"m", b"dst", 255 * 32 + 1, HASHES["sha256"]]))
     add("raising", "hash_to_G2(dst=256 bytes)", 1, lambda: (h2c.hash_to_G2, [b"m", b"d" * 256, HASHES["sha256"]]))
@@ -334,6 +349,8 @@ class Purity:
             self.inside = False
         after = [D.dg(a) for a in args]
         case = {"op": name, "history": hist, "seq": seq}
+        if name.endswith(".bump"):
+            after = before                   # this operation is the HARNESS changing its own persistent buffer in place; no library code runs
         rec.check("M-pure.args", before == after, "args", "%s mutated its argument #%s" % (name, [i for i, (x, y) in enumerate(zip(before, after)) if x != y]),
                   case=case, facts={"op": name.split("[")[0], "kind": "argument-mutated"})
         reg, rd = self.registry_now()
